@@ -2,6 +2,7 @@ import Nsq.Proofs.Num
 import Nsq.Proofs.PQ
 import Nsq.Proofs.Timing
 import Nsq.Proofs.Tick
+import Nsq.Proofs.ScanWindow
 import Nsq.Tie.Num
 import Nsq.Tie.PQ
 /-!
@@ -345,47 +346,67 @@ theorem inflight_not_before (max : Int) (c : Chan) (h : ChanInv c) (id : Nat) (p
     (id, p) ∈ keys (run max c ops).ifpq :=
   inflight_stays max c h id p hin ops hearly hnot
 
-/-! ### the window between the two critical sections of a scan iteration (open finding) -/
+/-! ### the window inside a scan iteration (finding `scan-window-requeue`, fixed by F16) -/
 
-/-- "Never timed out before its deadline" at the granularity of the code's critical sections:
-whenever the second half of a scan iteration (started by a heap pop at time `t`) releases a message,
-that message's current in-flight deadline — if it has one — is not later than `t`. -/
-def never_early_micro : Prop :=
+/-- "Never timed out before its deadline" at the granularity of the code's critical sections, for
+the scan iteration of shape `fixed`: a message in flight (so neither queued nor deferred; ids are
+unique: no other message with its id is published meanwhile), popped by a scan at `t`, then ANY
+history of other API calls (deliveries come from the queue: `runQ`), then the rest of the
+iteration. If the iteration releases the message, its deadline was due (`≤ t`) and it is not at
+that moment a (fresh) in-flight delivery: it has no in-flight deadline and no in-flight owner. -/
+def never_early_micro (fixed : Bool) : Prop :=
   ∀ (c : Chan) (t : Int) (between : List Op) (max : Int),
     ChanInv c →
-    ∀ e, (scanPopPQ c t).2 = some e →
-      let c' := run max (scanPopPQ c t).1 between
-      (scanFinishPop c' e.id).2 = true →
-      ∀ p, deadlineOf (scanFinishPop c' e.id).1 e.id = some p → p ≤ t
+    ∀ e, (scanPopPQ fixed c t).2 = some e →
+      e.id ∉ c.ready → e.id ∉ c.dmap → (∀ op ∈ between, ∀ now d, op ≠ .defer now e.id d) →
+      let c' := runQ max (scanPopPQ fixed c t).1 between
+      (scanFinishPop fixed c' e.id).2 = true →
+      e.pri ≤ t ∧ deadlineOf c' e.id = none ∧ lookup c'.ifmap e.id = none
 
-/-- the schedule: message 1 delivered to client 1 at 0 with timeout 10; the scan at t = 10 pops it
-off the heap; before the scan's second critical section the holder sends `REQ 1 0` and the message
-(same object) is delivered again, to client 2, at 10 with timeout 60000; the scan then finds id 1
-in the in-flight map, "owned" by the object's current clientID, and times the fresh delivery out:
-released at t = 10 with deadline 60010. -/
+/-- **Full theorem for the current code** (fix F16: heap pop + map delete in one critical section;
+shape pinned by `Tie.PQ.processInFlightBody_eq`). -/
+theorem never_early_micro_fixed : never_early_micro true := by
+  intro c t between max h e he h1 h2 h3 c' hfin
+  exact Nsq.Proofs.ScanWindow.never_early_micro_true c t between max h e he h1 h2 h3 hfin
+
+/-- the pre-fix schedule: message 1 delivered to client 1 at 0 with timeout 10; the scan at t = 10
+pops it off the heap; before the scan's second critical section the holder sends `REQ 1 0` and the
+message (same object) is delivered again, to client 2, at 10 with timeout 60000; the scan then finds
+id 1 in the in-flight map, "owned" by the object's current clientID, and times the fresh delivery
+out: released at t = 10 with deadline 60010. -/
 def raceStart : Chan := (startInFlight {} 0 1 1 10).1
 def raceBetween : List Op := [.requeue 10 1 1 0, .inflight 10 1 2 60000]
 
-/-- **`never_early_micro` is FALSE of the current code** (known finding C04 `scan-window-requeue`;
-replayed on the real code with the `chan.scan.afterPQPop` hook on every run). What holds is
-`scan_never_early` + `inflight_not_before`: never early when nothing touches that message between
-the two critical sections of the iteration — the atomic-step reading of `processInFlightQueue`. -/
-theorem never_early_micro_false : ¬ never_early_micro := by
+/-- **The same statement is FALSE of the pre-fix shape** (finding `scan-window-requeue`, fixed by F16;
+the schedule is replayed on the real code with the `chan.scan.afterPQPop` hook on every run and
+must no longer reproduce). -/
+theorem never_early_micro_false : ¬ never_early_micro false := by
   intro h
   have hinv : ChanInv raceStart := startInFlight_inv {} 0 1 1 10 inv_init
   have := h raceStart 10 raceBetween 900000 hinv ⟨1, 10, -1⟩ (by decide +kernel) (by decide +kernel)
-    60010 (by decide +kernel)
-  omega
+    (by decide +kernel) (by intro op hop now d; simp [raceBetween] at hop; rcases hop with rfl | rfl <;> simp)
+    (by decide +kernel)
+  have h2 := this.2.1
+  revert h2
+  decide +kernel
 
 /-- in that schedule the message is moreover handed out twice while one holder still has it, and the
 data invariant is lost (heap entry without map entry) -/
-example : (scanFinishPop (run 900000 (scanPopPQ raceStart 10).1 raceBetween) 1).1.ready = [1, 1] ∧
-    (scanFinishPop (run 900000 (scanPopPQ raceStart 10).1 raceBetween) 1).1.ifmap = [] ∧
-    deadlineOf (scanFinishPop (run 900000 (scanPopPQ raceStart 10).1 raceBetween) 1).1 1 = some 60010 := by
+example : (scanFinishPop false (runQ 900000 (scanPopPQ false raceStart 10).1 raceBetween) 1).1.ready = [1] ∧
+    (scanFinishPop false (runQ 900000 (scanPopPQ false raceStart 10).1 raceBetween) 1).1.ifmap = [] ∧
+    deadlineOf (scanFinishPop false (runQ 900000 (scanPopPQ false raceStart 10).1 raceBetween) 1).1 1 = some 60010 := by
   decide +kernel
 
-/-- without interference the two halves are the atomic step: same released message, same state -/
-example : (scanFinishPop (scanPopPQ raceStart 10).1 1).1.ready = (scanInFlight raceStart 10).chan.ready := by
+/-- the fixed shape on the same schedule: the REQ finds nothing in flight, nothing is re-delivered,
+the message is handed out once, with no in-flight entry left -/
+example : (scanFinishPop true (runQ 900000 (scanPopPQ true raceStart 10).1 raceBetween) 1).1.ready = [1] ∧
+    (scanFinishPop true (runQ 900000 (scanPopPQ true raceStart 10).1 raceBetween) 1).1.ifmap = [] ∧
+    deadlineOf (scanFinishPop true (runQ 900000 (scanPopPQ true raceStart 10).1 raceBetween) 1).1 1 = none := by
+  decide +kernel
+
+/-- without interference both shapes are the atomic step `scanInFlight` -/
+example : (scanFinishPop false (scanPopPQ false raceStart 10).1 1).1.ready = (scanInFlight raceStart 10).chan.ready ∧
+    (scanFinishPop true (scanPopPQ true raceStart 10).1 1).1.ready = (scanInFlight raceStart 10).chan.ready := by
   decide +kernel
 
 /-- **Scan selection**: `UniqRands q n` never panics and returns `min q n` pairwise distinct
